@@ -188,11 +188,14 @@ class Base:
         uneliminatable_annotations = frozenset(a for a in annotations if not (a.eliminatable or a.relocatable))
         relocatable_annotations = frozenset(a for a in annotations if not a.eliminatable and a.relocatable)
 
-        if not skip_child_annotations:
-            for a in b_args:
-                uneliminatable_annotations |= a._uneliminatable_annotations
+        # the cached sets always describe the whole sub-tree; skip_child_annotations only means that the
+        # relocatable annotations of the children are not copied onto this node (again)
+        for a in b_args:
+            uneliminatable_annotations |= a._uneliminatable_annotations
+            if not skip_child_annotations:
                 relocatable_annotations |= a._relocatable_annotations
 
+        if not skip_child_annotations:
             annotations = tuple(frozenset((*annotations, *relocatable_annotations)))
 
         hash_ = Base._calc_hash(op, a_args, annotations, length)
@@ -246,7 +249,7 @@ class Base:
         ):
             uneliminatable_annotations = frozenset(
                 anno for anno in annotations if not anno.eliminatable and not anno.relocatable
-            )
+            ).union(*(a._uneliminatable_annotations for a in args if isinstance(a, Base)))
             relocatable_annotations = frozenset(
                 anno for anno in annotations if not anno.eliminatable and anno.relocatable
             )
